@@ -96,8 +96,8 @@ func runDriverChunk(cases []*Case) (map[int]any, error) {
 	sc.Buffer(make([]byte, 1<<20), 1<<28)
 	for sc.Scan() {
 		var line struct {
-			ID  *int `json:"id"`
-			Out any  `json:"out"`
+			ID  *int   `json:"id"`
+			Out any    `json:"out"`
 			Err string `json:"error"`
 		}
 		dec := json.NewDecoder(bytes.NewReader(sc.Bytes()))
@@ -314,6 +314,11 @@ func main() {
 		os.Exit(runReplay(os.Args[2]))
 	case "child":
 		childMain()
+	case "racerun":
+		seed, _ := strconv.ParseUint(os.Args[2], 10, 64)
+		docs, _ := strconv.Atoi(os.Args[3])
+		gor, _ := strconv.Atoi(os.Args[4])
+		os.Exit(raceRun(seed, docs, gor))
 	default:
 		fmt.Fprintln(os.Stderr, "unknown command", os.Args[1])
 		os.Exit(2)
